@@ -46,6 +46,8 @@ Definition magic : N := 2654435769.   (* 0x9e3779b9 *)
 Definition shl_amt : N := 6.
 Definition shr_amt : N := 2.
 Definition combine : N -> N -> N := combine_with magic shl_amt shr_amt.
+Definition tuple_seed : N := 0.     (* hash(tuple): std::size_t seed = 0; *)
+Definition variant_seed : N := 0.   (* hash(variant): std::size_t seed = 0; *)
 
 Section Value.
 Variable leaf : Type.
@@ -65,11 +67,11 @@ Variables leqb lltb : leaf -> leaf -> bool.     (* == and < of the leaf type *)
 Fixpoint hash (x : value) : N :=
   match x with
   | VLeaf a => h a mod W                                            (* std::hash, a size_t *)
-  | VTuple l => fold_left (fun seed v => combine seed (hash v)) l 0   (* seed = 0; hash_combine_tuple<0> *)
+  | VTuple l => fold_left (fun seed v => combine seed (hash v)) l tuple_seed   (* hash_combine_tuple<0> *)
   | VPair a b => combine (hash a) (hash b)                          (* seed = hash(first); combine second *)
-  | VVariant _ v => combine 0 (hash v)                              (* seed = 0; the active alternative; index not hashed *)
+  | VVariant _ v => combine variant_seed (hash v)                   (* the active alternative; the index is not hashed *)
   | VPtr v => hash v                                                (* hash of the pointee *)
-  | VObj l => fold_left (fun seed v => combine seed (hash v)) l 0   (* t.hash() = hash(as_tuple(t)) *)
+  | VObj l => fold_left (fun seed v => combine seed (hash v)) l tuple_seed   (* t.hash() = hash(as_tuple(t)) *)
   end.
 
 (* running seed of hash_combine_tuple after the components in l, started from `seed` *)
